@@ -31,9 +31,10 @@ def Allowed (s : Sys) : Act → Prop
   | .inject e => isLinkMsg e = true
   | _ => True
 
-inductive Reachable : Sys → Prop
-  | init : Reachable Sys.init
-  | step {s : Sys} (a : Act) : Reachable s → Allowed s a → Reachable (s.step a)
+/-- reachable on the node with physical address `self` -/
+inductive Reachable (self : Nat) : Sys → Prop
+  | init : Reachable self (Sys.init self)
+  | step {s : Sys} (a : Act) : Reachable self s → Allowed s a → Reachable self (s.step a)
 
 /-- a subscribe request on behalf of `r` -/
 def isSubFor (r : Ref) (e : Envelope) : Bool :=
@@ -90,7 +91,9 @@ theorem lookup_status (s : SubActor) (snd : Option Ref) (a : Nat) (c : Bool) (t'
     (onStatusChanged s snd a c).1.lookup t' = s.lookup t' ∧ (onStatusChanged s snd a c).1.guid = s.guid ∧
     (onStatusChanged s snd a c).2 = [Eff.replyNil snd] := by
   unfold onStatusChanged
-  cases c <;> simp [SubActor.lookup]
+  by_cases hs : a = s.self
+  · simp [hs]
+  · cases c <;> simp [SubActor.lookup, hs]
 
 theorem broadcast_state (s : SubActor) (t : Topic) (p : Payload) (pub : Option Ref) (d : Bool) :
     (onPublishRequestBroadcast s t p pub d).1 = s := by
@@ -189,7 +192,7 @@ theorem countP_unsubs (r : Ref) (l : List Subscription) : (l.map unsubEnvelope).
   | nil => rfl
   | cons x xs ih => simp [isSubFor_unsub, ih]
 
-theorem inv_init : Inv Sys.init := by
+theorem inv_init (a : Nat) : Inv (Sys.init a) := by
   constructor
   · intro t x hx; simp [Sys.init, SubActor.init, SubActor.lookup] at hx
   · intro r x hx; simp [Sys.init, Actor.none] at hx
@@ -615,9 +618,9 @@ theorem inv_step {s : Sys} (hi : Inv s) (a : Act) (ha : Allowed s a) : Inv (s.st
   | terminate r => exact inv_terminate hi r
   | inject e => exact inv_inject hi e ha
 
-theorem inv_reachable {s : Sys} (h : Reachable s) : Inv s := by
+theorem inv_reachable {self : Nat} {s : Sys} (h : Reachable self s) : Inv s := by
   induction h with
-  | init => exact inv_init
+  | init => exact inv_init self
   | step a _ ha ih => exact inv_step ih a ha
 
 end MV.Lemmas.PubSubSys
